@@ -197,11 +197,18 @@ def gen_cases(ctx):
     yield {"kind": "read", "fmt": "kitti", "variant": "h", "text": " ".join(str(k) for k in range(1, 13)) + "\n", "label": "ok", "corpus": "kitti-slots"}
     n_ok = 1500 if not th else 8000
     n_bad = 2500 if not th else 12000
+    sizes = [1, 2, 3, 4, 7, 8, 9, 15, 16, 17, 31, 32, 33, 63, 64, 65, 127, 128, 129, 255, 256, 257] + ([1023, 1024, 1025, 4095, 4096, 4097] if th else [])
     for k in range(n_ok):
         fmt = r.choice(["tum", "kitti", "euroc"])
         nrows = r.choice([1, 1, 2, 3, 5, 8, 13]) if r.random() < 0.93 else r.randint(50, 300 if not th else 1000)
+        if k < len(sizes):
+            nrows = sizes[k]                    # L5: structured row counts
         variant = r.choice(["h", "p"])
-        text = assemble(r, fmt, gen_table(r, fmt, nrows))
+        table = gen_table(r, fmt, nrows)
+        if nrows > 1 and r.random() < 0.1:      # L6: duplicate / decreasing stamps are accepted by the readers
+            for row in table[1:]:
+                row[0] = table[0][0]
+        text = assemble(r, fmt, table)
         label = "ok"
         if r.random() < 0.35:
             text = tf.BOM + text
@@ -235,7 +242,19 @@ def gen_cases(ctx):
         if r.random() < 0.6:
             for st in steps:
                 st.update(spell=steps[0]["spell"], ptype=steps[0]["ptype"])
+        if r.random() < 0.25:                   # L1: the unchanged file read once more
+            steps.insert(1, dict(steps[0]))
         yield {"kind": "history", "fmt": fmt, "steps": steps}
+    # L2: load_transform on one path whose content changes between valid and invalid / between stores
+    for k in range(60 if not th else 300):
+        steps = []
+        for i in range(r.choice([2, 3, 4])):
+            c = gen_tfmat(r)
+            while c["label"].startswith("near"):
+                c = gen_tfmat(r)
+            steps.append({"store": c["store"], "mat": c["mat"], "label": c["label"],
+                          "spell": r.choice(["rel", "dot", "dotdot", "abs"])})
+        yield {"kind": "tfhistory", "steps": steps}
     # files written by evo, read by the model and by the reference reader
     for k in range(150 if not th else 600):
         n = r.choice([1, 2, 5, 20]) if r.random() < 0.9 else r.randint(100, 400 if not th else 5000)
@@ -349,7 +368,22 @@ def gen_tfmat(r):
         for i in range(3):
             M[i][2] *= (1 + eps)
         label = "near-diag-tol"
-    return {"kind": "tfmat", "store": r.choice(["npy", "txt"]), "mat": M, "label": label}
+    out = {"kind": "tfmat", "store": r.choice(["npy", "txt"]), "mat": M, "label": label}
+    if label == "valid" and r.random() < 0.4:
+        k2 = r.random()
+        if k2 < 0.35:           # an integer matrix: signed permutation with determinant +1, integer scale and translation
+            sc = r.choice([1, 2, 3])
+            perm = r.choice([[[1, 0, 0], [0, 1, 0], [0, 0, 1]], [[0, -1, 0], [1, 0, 0], [0, 0, 1]], [[0, 0, 1], [1, 0, 0], [0, 1, 0]],
+                             [[-1, 0, 0], [0, -1, 0], [0, 0, 1]]])
+            out["mat"] = [[float(sc * perm[i][j]) for j in range(3)] + [float(r.randint(-9, 9))] for i in range(3)] + [[0.0, 0.0, 0.0, 1.0]]
+            out["dtype"] = "int64"
+        elif k2 < 0.7:
+            out["mat"] = [[float(np.float32(v)) for v in row] for row in M]
+            out["dtype"] = "float32"
+        else:
+            out["order"] = "F"
+        out["store"] = "npy"
+    return out
 
 
 # ------------------------------------------------------------------ evo side
@@ -428,12 +462,45 @@ def impl_history(case):
     return {"steps": out}
 
 
+def impl_tfhistory(case):
+    from evo.tools import file_interface as fi
+    global NREAD
+    NREAD += 1
+    d = tempfile.mkdtemp(prefix="tfh_", dir=tmpdir())
+    os.mkdir(os.path.join(d, "sub"))
+    name = "tf_%d.bin" % NREAD
+    old = os.getcwd()
+    os.chdir(d)
+    out = []
+    try:
+        for st in case["steps"]:
+            a = np.array(st["mat"], dtype=float)
+            with open(os.path.join(d, name), "wb") as fh:
+                if st["store"] == "npy":
+                    np.save(fh, a)
+                else:
+                    np.savetxt(fh, a)
+            p = {"rel": name, "dot": "./" + name, "dotdot": "sub/../" + name, "abs": os.path.join(d, name)}[st["spell"]]
+            try:
+                m = fi.load_transform(p)
+                out.append({"status": "ok", "mat": [[float(v) for v in row] for row in m]})
+            except fi.FileInterfaceException:
+                out.append({"status": "FIE"})
+            except Exception as e:  # noqa
+                out.append({"status": "EXC:" + type(e).__name__, "msg": str(e)[:120]})
+    finally:
+        os.chdir(old)
+    return {"steps": out}
+
+
 def run_impl(case):
     from evo.tools import file_interface as fi
     from evo.core.trajectory import PosePath3D, PoseTrajectory3D
     k = case["kind"]
     if k == "history":
         return impl_history(case)
+    if k == "tfhistory":
+        return impl_tfhistory(case)
     if k == "read":
         return call_reader(case["fmt"], case["variant"], case["text"])
     if k == "written":
@@ -451,6 +518,10 @@ def run_impl(case):
             fh.write(case["text"].encode("utf-8"))
     else:
         a = np.array(case["mat"], dtype=float)
+        if case.get("dtype"):
+            a = a.astype(case["dtype"])
+        if case.get("order") == "F":
+            a = np.asfortranarray(a)
         if case["store"] == "npy":
             with open(p, "wb") as fh:
                 np.save(fh, a)
@@ -470,6 +541,8 @@ def model_lines(case, impl):
     k = case["kind"]
     if k == "history":
         return [f"C07 {case['fmt']} p {tf.hexs((tf.BOM if st['bom'] else '') + st['text'])}" for st in case["steps"]]
+    if k == "tfhistory":
+        return [model_lines({"kind": "tfmat", "mat": st["mat"]}, None)[0] for st in case["steps"]]
     if k == "read":
         ls = [f"C07 {case['fmt']} {case['variant']} {tf.hexs(case['text'])}"]
         if impl.get("status") == "ok" and case["fmt"] != "kitti":
@@ -514,9 +587,23 @@ def judge_history(ctx, case, impl, outs):
     ctx.count("branch", "history:" + case["fmt"])
 
 
+def judge_tfhistory(ctx, case, impl, outs):
+    for i, (st, im, m) in enumerate(zip(case["steps"], impl["steps"], outs)):
+        before = (len(ctx.failures), len(ctx.mismatches))
+        sub = {"kind": "tfmat", "store": st["store"], "mat": st["mat"], "label": st["label"]}
+        judge_tfmat(ctx, sub, im, [m], report=case)
+        for lst in (ctx.failures[before[0]:], ctx.mismatches[before[1]:]):
+            for _, f in lst:
+                key = "detail" if "detail" in f else "what"
+                f[key] = f"load_transform history round {i + 1} of {len(case['steps'])} ({st['label']}/{st['store']}, spelled {st['spell']}): " + str(f[key])
+    ctx.count("branch", "history:load_transform")
+
+
 def judge(ctx, case, impl, outs):
     if case["kind"] == "history":
         return judge_history(ctx, case, impl, outs)
+    if case["kind"] == "tfhistory":
+        return judge_tfhistory(ctx, case, impl, outs)
     {"read": judge_read, "written": judge_written, "tfjson": judge_tfjson, "tfmat": judge_tfmat}[case["kind"]](ctx, case, impl, outs)
 
 
@@ -727,9 +814,10 @@ def sim3_defect(M):
     return worst
 
 
-def judge_tfmat(ctx, case, impl, outs):
+def judge_tfmat(ctx, case, impl, outs, report=None):
+    rc = report if report is not None else case
     label = case["label"]
-    ctx.count("dist", f"tfmat:{case['store']}:{label}")
+    ctx.count("dist", f"tfmat:{case['store']}:{label}" + (":" + case.get("dtype", case.get("order", "")) if case.get("dtype") or case.get("order") else ""))
     st = impl["status"]
     toks = outs[0].split()
     acc, margin = toks[0] == "1", core.parse_rat(toks[1])
@@ -740,22 +828,22 @@ def judge_tfmat(ctx, case, impl, outs):
     if shape_ok and margin < Fraction(1, 10 ** 9) and label.startswith("near"):
         ctx.skipped += 1
     elif acc != (st == "ok"):
-        ctx.mismatch(case, f"model isSim3Tol={acc} (margin {float(margin):.3g}), evo {st}", st, acc)
+        ctx.mismatch(rc, f"model isSim3Tol={acc} (margin {float(margin):.3g}), evo {st}", st, acc)
     # oracle
     dfc = sim3_defect(case["mat"])
     if dfc is None or dfc > Fraction(1, 10 ** 4):
         if st == "ok":
-            ctx.fail(case, "transform-not-sim3-accepted", f"{label}: defect {None if dfc is None else float(dfc)}", {"defect": label})
+            ctx.fail(rc, "transform-not-sim3-accepted", f"{label}: defect {None if dfc is None else float(dfc)}", {"defect": label})
         elif st != "FIE":
-            ctx.fail(case, "invalid-transform-wrong-exception", f"{label}: {st} {impl.get('msg')}", {"defect": label})
+            ctx.fail(rc, "invalid-transform-wrong-exception", f"{label}: {st} {impl.get('msg')}", {"defect": label})
     elif dfc < Fraction(1, 10 ** 8):
         if st != "ok":
-            ctx.fail(case, "valid-transform-rejected", f"{label}: defect {float(dfc)}: {st} {impl.get('msg', '')}")
+            ctx.fail(rc, "valid-transform-rejected", f"{label}: defect {float(dfc)}: {st} {impl.get('msg', '')}")
         elif [[tf.bits(v) for v in row] for row in impl["mat"]] != [[tf.bits(v) for v in row] for row in case["mat"]]:
-            ctx.fail(case, "transform-values", "loaded matrix differs from the stored one")
+            ctx.fail(rc, "transform-values", "loaded matrix differs from the stored one")
     else:
         ctx.count("branch", "issim3:inside-tolerance-band")
-    ctx.record(case, True)
+    ctx.record(rc, True)
 
 
 # ------------------------------------------------------------------ driver
@@ -771,11 +859,11 @@ def evaluate(ctx, cases):
         try:
             judge(ctx, c, im, outs[a:b])
         except Exception as e:  # noqa  (never a tool error: what evo returned could not even be judged)
-            ctx.mismatch(c, f"the harness could not judge what evo returned: {type(e).__name__}: {str(e)[:160]}", str(im)[:300], None)
+            ctx.fail(c, "output-cannot-be-judged", f"the harness could not judge what evo returned: {type(e).__name__}: {str(e)[:160]}: {str(im)[:200]}")
 
 
 def shrink(case):
-    if case["kind"] == "history":
+    if case["kind"] in ("history", "tfhistory"):
         n = len(case["steps"])
         if n > 2:
             for i in range(n):
